@@ -308,7 +308,7 @@ def c04(tier, seed):
         # slices / arrays / maps in all these forms), pre-filled, with the configuration mentioning nothing or only a part
         MC("Gen_Reach", dict(Groups="={}"), invariants=["NoInvalidAccepted", "DefaultsKept"], label="MC_Reach/reachable-defaults"),
         GEN("Gen_Reach", {}, "reach", label="Gen_Reach/wrappers-x-defaults-x-settings", min_cases=200),
-    ]
+    ] + unpacker_stages()
 
 
 def c13(tier, seed):
@@ -323,7 +323,7 @@ def c13(tier, seed):
         # direction B: random struct types; the packed configuration with random top-level settings removed is unpacked into a
         # target pre-filled with a second random value - TLC computes what must have changed (Trace_Pack.Ov) and what must not
         pack_trace(tier),
-    ]
+    ] + unpacker_stages()
 
 
 def c14(tier, seed):
@@ -333,6 +333,15 @@ def c14(tier, seed):
         pack_trace(tier),
         # copies of one ${...} setting under one root: the error of a failed conversion names the copy that failed
         GEN("Gen_VarShare", dict(NameTab="<-TabShare", Groups="={}"), "varshare", known_const=None, label="Gen_VarShare/error-names-the-failing-copy", min_cases=8),
+    ] + unpacker_stages()
+
+
+def unpacker_stages():
+    # the typed unpacker interfaces as a call protocol (not called for absent / null / unconvertible settings, called once
+    # with the converted value, its error and its Validate() fail the call, the field keeps what it held)
+    return [
+        MC("Gen_Unpackers", dict(Groups="={}"), invariants=["CalledOnlyWithValue", "InvalidNeverAccepted"], label="MC_Unpackers/protocol"),
+        GEN("Gen_Unpackers", dict(Groups="={}"), "unpackers", known_const=None, label="Gen_Unpackers/kinds-x-sites-x-settings-x-behaviours", min_cases=1400),
     ]
 
 
@@ -449,7 +458,10 @@ REIFY_RULE = ("Gen_Reify: target struct{G int; F T (validate:v); H int} built wi
               "(absent, nil, ints, unparsable text, objects, lists, nested objects, failing elements, the value Validate() rejects) x 3x3 "
               "shapes for g/h (incl. a failing one after F succeeded) = 201 150 (335 250) cases; Gen_Validators: 12 kind classes x tags in "
               "every parameter syntax x defaults x settings in every syntax; Gen_TagPol: global policy x struct tags at two levels x lists; "
-              "Gen_Faults: (struct type, value) x site x fault kind, built by NewFrom and by two merges, Unpack and typed getter; Trace_Pack: "
+              "Gen_Faults: (struct type, value incl. *regexp.Regexp) x site x fault kind, built by NewFrom, by two merges, with every list renumbered by "
+              "a Remove and with every nested dictionary written as dotted keys, Unpack and typed getter; Gen_Unpackers: the eight typed unpacker "
+              "interfaces x 6 sites x 10 settings x 3 behaviours as a call protocol (not called for absent / null / unconvertible settings, "
+              "called once with the converted value, its error and its Validate() fail the call, the field keeps what it held); Trace_Pack: "
               "random struct types with one random fault each; compared: outcome class, every field "
               "value incl. nil-vs-empty, the dotted path quoted in the error, ucfg.Error with Reason and Class, target untouched on error. "
               "non-trivial: every case; distinct by (type, validator, pre-fill, config)")
@@ -477,7 +489,9 @@ CHECKS = {
                      "'', 1e3, 0x1f, a$b, ...), 5 boundary numbers, booleans, null, nested objects and lists; each rendered compact and indented and "
                      "loaded by yaml/json/hjson NewConfig and NewConfigWithFile, with and without PathSep and VarExp (24 loads per rendering); an "
                      "error is provoked about every setting (file named iff loaded from a file) and every number is read through Uint / Int / "
-                     "Float / Bool and compared with the exact value of the document's token; "
+                     "Float / Bool / a time.Duration field and compared with the exact value of the document's token; six failing expansions "
+                     "(missing, splice, nested name, two cycles, required) added one at a time at the top level / in a nested list / in an object "
+                     "and read by Unpack into generic and typed targets and by String(): the error names the file iff there is one; "
                      "Trace_Normalize: random documents (48 awkward strings, 17 awkward keys, 15 numbers) through a random front-end. "
                      "non-trivial: every document; distinct by document",
                 assumptions=ASSUME_COMMON + ["the YAML, JSON and HJSON decoders are third-party code outside the specification; the documents are JSON text, which all three accept"]),
@@ -499,15 +513,17 @@ CHECKS = {
                 rule="Gen_Pack: two-field structs over 15 field types (7 primitive kinds incl. Duration, *int64, *struct with a dotted tag, "
                      "slices, fixed array, maps of strings and of structs, nested struct) x tags {default, renamed, dotted, inline, ignore} x "
                      "extreme values (int64 min, uint64 max, 'a$b.c,d{e}', nil and empty collections), positional structs (integer-literal tags), all 12 "
-                     "numeric kinds x their boundaries as field / pointer / slice / array / map element = 73 795 well-formed (type, value) pairs; "
+                     "numeric kinds x their boundaries as field / pointer / slice / array / map element, *regexp.Regexp (nil, patterns with white space "
+                     "at the edges), exported field names of every legal form (non-ASCII initial, underscore, one letter) = 247 543 well-formed (type, value) pairs; "
                      "Trace_Pack: random struct types (depth <= 3) and values; "
                      "compared: the packed tree and the round-tripped value (nil ~ empty). non-trivial: every pair; distinct by (type, value)",
                 assumptions=ASSUME_COMMON + ["generated struct types are well-formed (no two fields resolving to the same or prefix-related names)"]),
     "C03": dict(stages=c03, family="conv",
-                rule="Gen_Convert: 4 source kinds (Go int64, uint64, float64, decimal text) x (19 named boundaries x offsets -2..2 x "
+                rule="Gen_Convert: 4 source kinds (Go int64, uint64, float64, decimal text) x (23 named boundaries incl. +-MaxFloat32 and their float64 neighbours x offsets -2..2 x "
                      "{whole, half} + NaN, +Inf, -Inf) x 13 targets (int8..int64, int, uint8..uint64, uint, float32/64, Duration), each through "
                      "a struct field, a pointer field, a named type, a ${reference}, a splice (${x:0}, through text), the typed setters and - for "
-                     "64-bit targets - the typed getter; Gen_ConvText: 44 texts in every strconv syntax, bools and boundary numbers into bool, "
+                     "64-bit targets - the typed getter and the typed unpacker interfaces (IntUnpacker / UintUnpacker / FloatUnpacker as a field, a nil and "
+                     "a pre-filled pointer, a slice element by value and by pointer, a map value; Bool- and StringUnpacker in Gen_ConvText); Gen_ConvText: 44 texts in every strconv syntax, bools and boundary numbers into bool, "
                      "string and numeric targets; pairs the "
                      "source kind cannot represent exactly are skipped (counted); Trace_Convert: random bit patterns classified with math/big. "
                      "non-trivial: every representable combination; distinct by (source kind, number, target)",
@@ -555,7 +571,8 @@ CHECKS = {
                 assumptions=ASSUME_COMMON),
     "C16": dict(stages=c16, family="merge",
                 rule="Gen_Merge: pairs of trees carrying the same list-valued name at two depths x global policy x "
-                     "per-field options (named paths, ** wildcards, pairs of options); the same with a REFERENCE to a container at the per-field "
+                     "per-field options (named paths, ** wildcards, pairs of options; PathSep placed before or after them; the option VALUES used in "
+                     "two other calls first); the same with a REFERENCE to a container at the per-field "
                      "path; per-field paths through list indices over lists of lists / dictionaries; Trace_Merge with random options. "
                      "non-trivial = operands share a slot; distinct by (a,b,policy,options)",
                 assumptions=ASSUME_COMMON),
